@@ -569,6 +569,49 @@ func c11Tcp(c *caseCtx) (res caseResult) {
 			res.inconclusive("%s", b)
 		}
 	}
+	// a reply that comes too late: the requester gets its timeout error, the response PID is gone, and the
+	// late reply - it arrives over the wire - becomes a dead letter on the requester's node
+	if res.Verdict != vViolated && res.Verdict != vInconclusive {
+		lateResp := n1.eng.Request(actor.NewPID(addrs[1], "t/0"), &remote.TestMessage{Data: []byte("slowreq-1")}, 100*time.Millisecond)
+		lateID := lateResp.PID().ID
+		_, lateErr := lateResp.Result()
+		if lateErr == nil {
+			// (the timeout runs from the call of Result(): on a slow machine the reply may have made it)
+			res.count("late_reply_came_in_time", 1)
+		}
+		if k, i := idKind(lateID); n1.eng.Registry.GetPID(k, i) != nil {
+			res.violate("the response PID %s is still registered after Result() returned", lateID)
+		}
+		isLate := func(x any) bool {
+			ev, ok := x.(actor.DeadLetterEvent)
+			if !ok || ev.Target == nil || ev.Target.ID != lateID {
+				return false
+			}
+			m, ok := ev.Message.(*remote.TestMessage)
+			return ok && string(m.Data) == "rep-slowreq-1"
+		}
+		if lateErr == nil {
+			isLate = func(any) bool { return true }
+		}
+		// the reply is on its way: it has arrived when a probe sent behind it over the same connection has
+		probeResp := make(chan struct{})
+		go func() {
+			waitFor(wd, func() bool { return n1.mon.count(isLate) > 0 })
+			close(probeResp)
+		}()
+		<-probeResp
+		if n1.mon.count(isLate) == 0 {
+			// decide on state: a request sent after the late reply was due has been answered over the same
+			// connection (replies travel in order), so the late reply has been read by the requester's node
+			v, err := n1.eng.Request(actor.NewPID(addrs[1], "t/0"), &remote.TestMessage{Data: []byte("req-after-late")}, wd).Result()
+			n1.mon.flush(n1.eng, wd)
+			if m, ok := v.(*remote.TestMessage); err == nil && ok && string(m.Data) == "rep-after-late" && n1.mon.count(isLate) == 0 {
+				res.violate("a reply that arrived from another node after Result() had returned its timeout error did not become a dead letter (a later request over the same connection has been answered, so the late reply has been read)")
+			} else if n1.mon.count(isLate) == 0 {
+				res.inconclusive("late reply not seen and the follow-up request was not answered")
+			}
+		}
+	}
 	res.Desc = fmt.Sprintf("tcp: %d requesters x %d requests to an actor on another node, fire-and-forget messages in between", nG, per)
 	res.count("remote_requests", int64(nG*per))
 	res.Sig = sigHash("c11tcp", nG, per/10)
